@@ -28,6 +28,7 @@ type Case struct {
 	Fail   string `json:"fail"` // eof | reset | timeout   (write: error | short)
 	Chunk  int    `json:"chunk,omitempty"` // 0: bytes arrive in one read; else read size
 	Late   bool   `json:"late,omitempty"`  // the consumer calls NextPackage only after the reader has processed everything that arrived
+	Prev   string `json:"prev,omitempty"`  // history: this response was received completely and drained on the channel before
 }
 
 var h *hlib.H
@@ -98,6 +99,18 @@ func runRead(c Case) {
 	} else if len(data) > 0 {
 		sc.Chunks = [][]byte{data}
 	}
+	var prevAll []string
+	if c.Prev != "" {
+		pr := corpus[c.Prev]
+		pb, ok := bases[c.Prev]
+		if !ok {
+			a, af := baseline(pr)
+			pb = base{a, af}
+			bases[c.Prev] = pb
+		}
+		prevAll = pb.all
+		sc.Chunks = append([][]byte{hx.Concat(packetsOf(pr)...)}, sc.Chunks...)
+	}
 	switch c.Fail {
 	case "eof":
 		sc.Close = true
@@ -111,6 +124,14 @@ func runRead(c Case) {
 	o, x := rx.Deliver(vrt.Config{}, sc, func(conn *tds.Conn, ch *tds.Channel, pipe *vrt.Pipe, o *rx.Obs) {
 		ctx, cancel := vrt.WithTimeout(context.Background(), 10*time.Hour)
 		defer cancel()
+		for i := 0; i < len(prevAll); i++ { // the earlier response, completely
+			p, err := ch.NextPackage(ctx, true)
+			if err != nil || rx.LibDesc(p) != prevAll[i] {
+				o.Failure = fmt.Sprintf("earlier-response-disturbed: package %d of the complete earlier response %s: %v %v", i, c.Prev, p, err)
+				vrt.Finish()
+				return
+			}
+		}
 		for len(o.Items) < 300 {
 			if c.Late {
 				vrt.Settle()
@@ -173,7 +194,13 @@ func runRead(c Case) {
 	if c.Late {
 		cls += "|late-consumer"
 	}
+	if c.Prev != "" {
+		cls += "|after-earlier-response"
+	}
 	ctxt := fmt.Sprintf("%s: %d of %d stream bytes (%d of %d packets complete) then %s", c.Resp, c.Offset, len(stream), full, len(pk), c.Fail)
+	if c.Prev != "" {
+		ctxt = "after the complete response " + c.Prev + ", " + ctxt
+	}
 	if o.Failure != "" {
 		kind := strings.SplitN(o.Failure, ":", 2)[0]
 		h.Violate("C14|"+kind+"|"+cls, fmt.Sprintf("%s: %s; received %v", ctxt, o.Failure, o.Descs()), c)
@@ -331,6 +358,14 @@ func main() {
 				if k%3 == 0 {
 					run(Case{Kind: "read-fault", Resp: r.Name, Offset: k, Fail: f, Chunk: 3})
 					h.Section("read-faults-3-byte-reads", 1)
+				}
+				// history: an earlier response on the channel (ending in a real final DONE / in a
+				// DONE the library had to complete / multi-packet rows)
+				for pi, prev := range []string{"rows", "done-final", "returnstatus-doneproc"} {
+					if h.Thorough || (k+pi)%3 == 0 {
+						run(Case{Kind: "read-fault", Resp: r.Name, Offset: k, Fail: f, Prev: prev})
+						h.Section("read-faults-after-earlier-response", 1)
+					}
 				}
 			}
 		}
